@@ -9,8 +9,7 @@
     spec fn kb_ok(&self, nonce: Seq<char>, aud: Seq<char>, key: EncodingKey, sign_alg: Option<String>) -> bool {
         let t = self.serialized_key_binding_jwt@;
         jsonwebtoken::well_formed(t) && jsonwebtoken::signed_with(t, key)
-            // the default algorithm comes out of an un-annotated closure (`unwrap_or_else(|| ...)`): only the explicit case is stated
-            && (sign_alg is Some ==> jsonwebtoken::alg_of_str(sign_alg->Some_0@) == Some(jsonwebtoken::hdr_of(t).alg))
+            && jsonwebtoken::alg_of_str(kb_alg_name(sign_alg)) == Some(jsonwebtoken::hdr_of(t).alg)
             && jsonwebtoken::hdr_of(t).typ is Some && jsonwebtoken::hdr_of(t).typ->Some_0@ == "kb+jwt"@
             && j_get(jsonwebtoken::claims_of(t), "nonce"@) == Some(J::Str(nonce))
             && j_get(jsonwebtoken::claims_of(t), "aud"@) == Some(J::Str(aud))
